@@ -18,9 +18,9 @@ Obs(act) == act /\ pos' = pos + 1 /\ tid' = tid
 Sil(act) == act /\ pos' = pos /\ tid' = tid
 TNext ==
   \/ Is("produce") /\ Obs(Produce) /\ produced'[Len(produced')] = Ev.m
-  \/ Sil(Pop) \/ Sil(SCheck)
-  \/ Is("write") /\ Obs(SWrite) /\ Len(written') = Len(written) + 1 /\ written'[Len(written')] = <<Ev.c, Ev.m>>
-  \/ Is("write_failed") /\ Obs(SWrite) /\ spc' = "eclose" /\ sst' = Ev.c
+  \/ Sil(PTop) \/ Sil(PIdle) \/ Sil(Pop) \/ Sil(SCheck)
+  \/ Is("write") /\ Ev.who = "sender" /\ Obs(SWrite) /\ Len(written') = Len(written) + 1 /\ written'[Len(written')] = <<Ev.c, Ev.m>>
+  \/ Is("write_failed") /\ Ev.who = "sender" /\ Obs(SWrite) /\ spc' = "eclose" /\ sst' = Ev.c
   \/ Is("close") /\ Ev.who = "sender" /\ Obs(SErrClose) /\ sst = Ev.c
   \/ Is("reconnect") /\ Ev.who = "sender" /\ Obs(SErrReconnect)
   \/ Is("close") /\ Ev.who = "reader" /\ Obs(L0) /\ LostExc /\ lconn' = Ev.c
@@ -31,14 +31,17 @@ TNext ==
   \/ Sil(L3)
   \/ Sil(U0) \/ Sil(U0b)
   \/ Is("close") /\ Ev.who = "user" /\ Obs(U1) /\ raised' = raised
-  \/ Sil(U2)
+  \/ Sil(U2) \/ Sil(U3)
   \/ Sil(K0)
   \/ Is("made") /\ Obs(K1) /\ ptr' = Ev.c
 TInit == Init /\ tid \in 1..Len(Traces) /\ pos = 1
 TSpec == TInit /\ [][TNext]_tvars
-AllDone == spc = "idle" /\ queue = <<>> /\ lpc = "done" /\ upc = "done" /\ kpc = "idle"
+AllDone == /\ \/ (spc \in {"idle", "top"} /\ queue = <<>>)
+              \/ spc = "exit"                                   \* the pump saw the stop flag: what is queued stays queued
+           /\ lpc = "done" /\ upc = "done" /\ kpc = "idle"
 \* a trace is accepted when every event is consumed and every actor can finish
 Accepting == pos = N + 1 /\ AllDone /\ nextmsg = Traces[tid].nproduced + 1 /\ Len(dropped) = Traces[tid].ndropped
+             /\ Len(queue) = Traces[tid].nleft
 Track == /\ (Accepting => TLCSet(tid, 1))
          \* C20 (AtMostOneLiveLink under interleavings): remember accepted traces that end with an orphaned connection
          /\ ((Accepting /\ kpend = 0 /\ ~NoOrphanedConnection) => TLCSet(tid + 100000, 1))
